@@ -70,6 +70,8 @@ def gen_line(rng, event, allow_unsupported=True):
                 continue
             if not allow_unsupported and (POOL[r1][0], POOL[r2][0]) == ("S", "V"):
                 r1, r2, perm = r2, r1, perm[2:] + perm[:2]
+            if not allow_unsupported and (POOL[r1][0], POOL[r2][0]) not in {("V", "V"), ("V", "S"), ("S", "S")}:
+                continue
             sf = rng.choice(["-", "-", "S", "P", "D"]) if (POOL[r1][0], POOL[r2][0]) == ("V", "V") else "-"
             t = node(event[0], sf=sf, kids=[node(r1, ls=random_tag(rng), kids=[node(perm[0]), node(perm[1])]),
                                             node(r2, ls=random_tag(rng), kids=[node(perm[2]), node(perm[3])])])
@@ -82,6 +84,8 @@ def gen_line(rng, event, allow_unsupported=True):
         if not cands:
             continue
         big = rng.choice(cands)
+        if not allow_unsupported and (POOL[big][0], POOL[r][0]) not in {("A", "V"), ("A", "S"), ("T", "V"), ("s", "S"), ("s", "V")}:
+            continue
         wave = rng.choice(["-", "-", "D"]) if (POOL[big][0], POOL[r][0]) == ("A", "V") else "-"
         inner = node(big, sf=wave, ls=random_tag(rng), kids=[node(r, ls=random_tag(rng), kids=[node(perm[0]), node(perm[1])]),
                                                              node(perm[2])])
